@@ -106,7 +106,7 @@ NT_CLS = {0: INT, 1: STR, 2: A_}
 
 # Names used in annotations through a lookup (Lean: AnnExpr.name n). kind: a = module-level name shadowing a builtin,
 # b = builtin only, c = module only, d = defined nowhere, e = bound by the module AFTER the defs, r = bound before the
-# defs and rebound after them (known finding reboundName; only generated when C13_REBOUND=1).
+# defs and rebound after them (known finding reboundName; generated by default, C13_NO_REBOUND=1 leaves it out).
 # targets are NameTarget terms: ("cls", cid) ("nt", n, cid) ("bare", cid) ("anyT",) ("opq", k)
 NAMES = [
     dict(id=0, text="complex", kind="a", early=("cls", B_), late=("cls", B_), builtin=("cls", G.COMPLEX)),
@@ -121,7 +121,7 @@ NAMES = [
     dict(id=9, text="Warning", kind="a", early=("cls", IE_), late=("cls", IE_), builtin=("opq", 1)),
 ]
 NAME_TEXT = {n["id"]: n["text"] for n in NAMES}
-REBOUND = os.environ.get("C13_REBOUND") == "1"
+REBOUND = os.environ.get("C13_NO_REBOUND") != "1"
 EARLY_NAMES = [n["id"] for n in NAMES if (n["early"] or n["builtin"]) and n["kind"] != "r"]   # usable unquoted
 QUOTED_NAMES = [n["id"] for n in NAMES if n["kind"] not in ("r", "d")]                          # usable inside strings
 UNDEF_NAME, LATER_NAME, REB_NAME = 6, 7, 8
@@ -354,7 +354,8 @@ def obj_to_term(o):
 # ------------------------------------------------------------------ generators
 ATOM_CLS = [INT, STR, BOOL, FLOAT, BYTES, OBJECT, LIST, TUPLE, TYPE, DICT, A_, B_, COLOR]
 ATOMS = [("cls", c) for c in ATOM_CLS] + [("none",), ("anyT",), ("nt", 0), ("nt", 2)] + \
-        [("bare", c) for c in (LIST, TUPLE, TYPE, DICT, G.SEQUENCE)] + [("name", i) for i in EARLY_NAMES]
+        [("bare", c) for c in (LIST, TUPLE, TYPE, DICT, G.SEQUENCE)] + [("name", i) for i in EARLY_NAMES] + \
+        ([("name", REB_NAME)] if REBOUND else [])
 CORE_ATOMS = [("cls", INT), ("cls", STR), ("none",), ("anyT",), ("cls", A_), ("nt", 0), ("cls", LIST), ("bare", TUPLE),
               ("name", 0), ("name", 1)]
 GEN1 = [LIST, SET, FSET, G.SEQUENCE, G.ITERABLE]
